@@ -26,8 +26,8 @@ func init() {
 // shared tensors of one execution
 type c18shared struct {
 	M, MT, SV, V, V2, MK, CM *tensor.Dense
-	all                  []*tensor.Dense
-	fps                  []uint64
+	all                      []*tensor.Dense
+	fps                      []uint64
 }
 
 func c18Setup() *c18shared {
